@@ -658,16 +658,24 @@ class QueryObjectDescriptor(CanBehaveLikeAVariable[T], ABC):
                     v = conclusion._evaluate__(v)
             self._warn_on_unbound_variables_(v, selected_vars)
             if selected_vars:
-                var_val_gen = {var: var._evaluate_as_value_(copy(v))
-                               for var in selected_vars}
-                original_v = v
-                for sol in generate_combinations(var_val_gen):
-                    v = copy(original_v)
-                    var_val = {var._id_: sol[var][var._id_] for var in selected_vars}
-                    v.update(var_val)
-                    yield v
+                yield from self._bind_selected_variables_(list(selected_vars), v)
             else:
                 yield v
+
+    def _bind_selected_variables_(self, selected_vars: List[CanBehaveLikeAVariable],
+                                  binding: Dict[int, HashedValue]) -> Iterable[Dict[int, HashedValue]]:
+        """
+        Bind the selected variables one after the other, each under the binding accumulated so far, so that what a
+        selected expression binds on the way (e.g. the parent of a flattened attribute) stays correlated with it,
+        while selected variables that are unrelated are still combined freely.
+        """
+        if not selected_vars:
+            yield binding
+            return
+        for value in selected_vars[0]._evaluate_as_value_(copy(binding)):
+            extended_binding = copy(binding)
+            extended_binding.update(value)
+            yield from self._bind_selected_variables_(selected_vars[1:], extended_binding)
 
     def _warn_on_unbound_variables_(self, sources: Dict[int, HashedValue],
                                     selected_vars: Iterable[CanBehaveLikeAVariable]):
